@@ -8,6 +8,7 @@ import (
 
 	"go.minekube.com/common/minecraft/component"
 
+	"go.minekube.com/gate/pkg/edition/java/profile"
 	"go.minekube.com/gate/pkg/edition/java/proto/packet/chat"
 	"go.minekube.com/gate/pkg/edition/java/proto/packet/tablist/legacytablist"
 	"go.minekube.com/gate/pkg/edition/java/proto/packet/tablist/playerinfo"
@@ -223,6 +224,19 @@ func (t *TabList) add(entry tablist.Entry) (*playerinfo.Upsert, error) {
 	t.EntriesByID[playerInfoEntry.ProfileID] = entry
 	t.Unlock()
 
+	if previousEntry != nil && previousEntry != entry &&
+		!sameProfile(previousEntry.Profile(), entry.Profile()) {
+		// The client cannot change the profile (name, skin) of a player it already knows:
+		// take the old one out and add the entry anew.
+		err := t.Viewer.BufferPacket(&playerinfo.Remove{
+			PlayersToRemove: []uuid.UUID{playerInfoEntry.ProfileID},
+		})
+		if err != nil {
+			return nil, err
+		}
+		previousEntry = nil
+	}
+
 	if previousEntry != nil {
 		// we should merge entries here
 		if equalLocked(previousEntry, entry) {
@@ -301,6 +315,19 @@ func (t *TabList) add(entry tablist.Entry) (*playerinfo.Upsert, error) {
 			playerInfoEntry,
 		},
 	}, nil
+}
+
+// sameProfile reports whether two profiles show the same player (name and properties).
+func sameProfile(a, b profile.GameProfile) bool {
+	if a.ID != b.ID || a.Name != b.Name || len(a.Properties) != len(b.Properties) {
+		return false
+	}
+	for i := range a.Properties {
+		if a.Properties[i] != b.Properties[i] {
+			return false
+		}
+	}
+	return true
 }
 
 func (t *TabList) hasEntry(id uuid.UUID) bool {
